@@ -549,6 +549,67 @@ def check_dates_around_the_response_date(W, rec, tmpdir):
                 return
 
 
+def check_shared_and_growing_bodies(W, rec, tmpdir):
+    """Histories around the body.  (a) The application keeps one list of blocks and builds every response from it: a range
+    request answered earlier leaves the list as it was, so later complete and partial answers are right.  (b) The length
+    is measured when the response is made, the body is read when the server iterates it: a file that has grown in between
+    is served up to the measured length - a 206 still carries exactly the bytes its Content-Range declares."""
+    from werkzeug.utils import send_file
+
+    Response, create_environ = W["Response"], W["create_environ"]
+    # (a)
+    for blocks0 in ([b"ab", b"cd", b"ef", b"gh"], [b"a", b"", b"bcdefg", b"h"], [b"abcdefgh"]):
+        whole = b"".join(blocks0)
+        blocks = list(blocks0)
+        for h in ("bytes=2-3", "bytes=4-", None, "bytes=-2", "bytes=0-0", "bytes=6-7", None, "bytes=1-6"):
+            env = create_environ(headers={"Range": h} if h else {})
+            r = Response(blocks, mimetype="application/octet-stream")
+            r.make_conditional(env, accept_ranges=True, complete_length=len(whole))
+            it, status, hd = r.get_wsgi_response(env)
+            data = b"".join(it)
+            if hasattr(it, "close"):
+                it.close()
+            exp = ref_range(h, len(whole))
+            want = whole if exp[0] == "full" else whole[exp[1]:exp[2] + 1]
+            case = {"family": "shared-block-list", "blocks": [len(b_) for b_ in blocks0], "Range": h}
+            rec.case()
+            rec.nontrivial(("shared-list", tuple(len(b_) for b_ in blocks0), h))
+            rec.observe("responses_built_from_one_shared_list")
+            if data != want or blocks != list(blocks0):
+                rec.violation("C11/body-list-of-the-application-altered", f"one list of blocks serves every response; after earlier range requests Range {h!r} got {status} {data!r} (expected {want!r}); "
+                              f"the application's list is now {blocks!r}", case, monitor="range-evaluator")
+                return
+    # (b)
+    p = os.path.join(tmpdir, "growing.log")
+    for h, lo, hi in (("bytes=4-", 4, 10), ("bytes=-3", 7, 10), ("bytes=2-9", 2, 10), ("bytes=2-20", 2, 10), ("bytes=0-", 0, 10), ("bytes=1-4", 1, 5)):
+        for kind in ("path", "fileobj-not-seekable"):
+            with open(p, "wb") as f:
+                f.write(b"0123456789")
+            env = create_environ(headers={"Range": h})
+            if kind == "path":
+                r = send_file(p, env, conditional=True, etag=False)
+                grow = lambda: open(p, "ab").write(b"LATER-LINES-OF-THE-LOG")  # noqa: E731
+            else:
+                src = NonSeek(b"0123456789" + b"LATER-LINES-OF-THE-LOG")
+                r = Response(W["FileWrapper"](src, 3), direct_passthrough=True, mimetype="application/octet-stream")
+                r.make_conditional(env, accept_ranges=True, complete_length=10)
+                grow = lambda: None  # noqa: E731
+            it, status, hd = r.get_wsgi_response(env)
+            grow()
+            data = b"".join(it)
+            if hasattr(it, "close"):
+                it.close()
+            hdd = dict(hd)
+            case = {"family": "body-longer-than-measured", "kind": kind, "Range": h}
+            rec.case()
+            rec.nontrivial(("growing", kind, h))
+            rec.observe("bodies_longer_than_the_measured_length")
+            if int(status[:3]) != 206 or data != b"0123456789"[lo:hi] or hdd.get("Content-Length") != str(hi - lo) or hdd.get("Content-Range") != f"bytes {lo}-{hi - 1}/10":
+                rec.violation("C11/206-body-differs-from-declared-range", f"{kind}: the body delivers more than the 10 bytes measured; Range {h!r} -> {status}, Content-Range {hdd.get('Content-Range')!r}, "
+                              f"Content-Length {hdd.get('Content-Length')!r}, {len(data)} body bytes {data[:40]!r}", case, monitor="range-evaluator")
+                return
+
+
 def check_concurrent_generated_etags(W, rec, rng):
     """Schedule: request threads derive the validator of their own current body at the same time (Response.add_etag,
     is_resource_modified(data=...)), a new version of a resource appearing while older ones are still being served.  With
@@ -722,6 +783,9 @@ def run(shard, rec, rng):
         if idx % 4 == 2:
             with rec.guard({"family": "dates-around-the-response-date"}, "C11"):
                 check_dates_around_the_response_date(W, rec, tmpdir)
+        if idx % 4 == 0:
+            with rec.guard({"family": "shared-and-growing-bodies"}, "C11"):
+                check_shared_and_growing_bodies(W, rec, tmpdir)
         if idx % 4 == 3:
             with rec.guard({"family": "generated-etags"}, "C11"):
                 check_concurrent_generated_etags(W, rec, rng)
